@@ -80,15 +80,32 @@ int main(int argc, char** argv) {
   long routes = 0, simplices = 0, deviations = 0;
   for (int gi = 0; gi < graphs; ++gi) {
     G g;
-    g.n = 80 + rnd(61);
+    g.n = 100 + rnd(61);
     for (int v = 0; v < g.n; ++v) g.vval.push_back(rnd(2));
     auto add = [&](int a, int b, double f) { if (a != b) g.e.emplace(std::make_pair(std::min(a, b), std::max(a, b)), std::max({f, g.vval[a], g.vval[b]})); };
     // hubs: a low label joined to most higher labels (66 or more), a second hub in the middle
-    const int hub = rnd(4), hub2 = g.n / 2 + rnd(5);
-    for (int v = 0; v < g.n; ++v) { if (rnd(8) != 0) add(hub, v, 1 + rnd(3)); if (rnd(3) == 0) add(hub2, v, 1 + rnd(3)); }
+    const int hub = 6 + rnd(4), hub2 = g.n / 2 + rnd(5);
+    for (int v = 4; v < g.n; ++v) { if (rnd(8) != 0) add(hub, v, 1 + rnd(3)); if (rnd(3) == 0) add(hub2, v, 1 + rnd(3)); }   // (vertices 0-3: see below)
+    // four vertices below a hub H, each adjacent to H and to two or three vertices chosen by their POSITION in H's list
+    // of higher neighbours: 64 (63, 65, 32, 16) entries after the start of the list or after the previous common
+    // neighbour - a short sorted list merged with a long one, at and around the block boundaries of any skipping or
+    // galloping merge
+    {
+      const int H = 4 + rnd(2);
+      for (int v = H + 1; v < g.n; ++v) if (rnd(12) != 0) add(H, v, 1 + rnd(3));
+      std::vector<int> up;
+      for (auto& x : g.e) if (x.first.first == H) up.push_back(x.first.second);
+      std::sort(up.begin(), up.end());
+      const std::vector<std::vector<int>> chains = {{64, 129}, {63, 127}, {65, 131}, {gi % 2 ? 32 : 16, gi % 2 ? 97 : 33, 120}};
+      for (int low = 0; low < 4; ++low) {
+        add(low, H, 1 + rnd(3));
+        for (int pos : chains[static_cast<std::size_t>(low)])
+          if (pos < static_cast<int>(up.size())) add(low, up[static_cast<std::size_t>(pos)], 1 + rnd(3));
+      }
+    }
     // sparse background and a few dense pockets
-    for (int k = 0; k < 2 * g.n; ++k) add(rnd(g.n), rnd(g.n), 1 + rnd(3));
-    for (int p = 0; p < 3; ++p) { int base = rnd(g.n - 8); for (int a = 0; a < 6; ++a) for (int b = a + 1; b < 6; ++b) if (rnd(5) != 0) add(base + a, base + b, 1 + rnd(3)); }
+    for (int k = 0; k < 2 * g.n; ++k) add(4 + rnd(g.n - 4), 4 + rnd(g.n - 4), 1 + rnd(3));
+    for (int p = 0; p < 3; ++p) { int base = 4 + rnd(g.n - 12); for (int a = 0; a < 6; ++a) for (int b = a + 1; b < 6; ++b) if (rnd(5) != 0) add(base + a, base + b, 1 + rnd(3)); }
     const int d = 2 + (gi % 2);
     const K exp = brute(g, d);
     simplices += static_cast<long>(exp.size());
